@@ -324,6 +324,7 @@ type c10fWorld struct {
 	log       []c10fEnt
 	store     [2]map[int]int // kind -> name -> marker of the last write
 	fault     [2]bool        // the Get of the Reconcile call in progress fails
+	nfault    int            // failed Gets so far (selects the kind of the failure)
 	cancelIn  [2]bool        // the context is cancelled while the Get of the call in progress runs
 	cancelFn  func()
 	handed    []interface{} // every event the handler was given, in order
@@ -446,6 +447,18 @@ func (g *c10fGetter) Get(_ context.Context, key client.ObjectKey, obj client.Obj
 		w.cancelFn()
 	}
 	if fault {
+		// the kinds of failure a read can end in while the reconcile context is alive
+		w.nfault++
+		switch w.nfault % 5 {
+		case 1:
+			return fmt.Errorf("c10f: client rate limiter Wait returned an error: %w", context.DeadlineExceeded)
+		case 2:
+			return apierrors.NewTimeoutError("c10f: the API server timed out", 1)
+		case 3:
+			return fmt.Errorf("c10f: the informer cache is not started: %w", context.Canceled)
+		case 4:
+			return apierrors.NewInternalError(errors.New("c10f: etcd leader changed"))
+		}
 		return errors.New("c10f: the API server is unavailable")
 	}
 	if !found {
